@@ -140,9 +140,15 @@ func c17Child(args []string) int {
 	}
 	initOnce.Do(func() {})
 	InitGrolWith(&extensions.Config{HasLoad: cfg.hasIO, HasSave: cfg.hasIO, UnrestrictedIOs: !cfg.restricted, LoadSaveEmptyOnly: cfg.empty})
+	reports := 0
 	report := func(kind, name, detail string) {
 		jb, _ := json.Marshal(map[string]string{"kind": kind, "name": fw.Q(name), "detail": detail})
 		fmt.Println("C17VIOLATION " + string(jb))
+		if reports++; reports >= 40 {
+			// enough to decide (a sanitiser that lets thousands of names through makes every later step slower and slower)
+			fmt.Println("C17END stopped after 40 reports")
+			os.Exit(0)
+		}
 	}
 	ss := newSession(false)
 	// like the command line does for `grol ../scripts/run.gr`: the program is a script located outside the working directory
